@@ -244,7 +244,8 @@ def main(argv=None):
         samples.append({"obligation": e["name"], "instances(paths)": e["instances"], "formula": e["formula"][:300],
                         "backends": e["backends"]})
     level = meta.get("level", "proof")
-    n_claim = len(real_obl) - len(known_hit)
+    real_ids = set(id(e) for e in real_obl)
+    n_claim = len(real_obl) - len([1 for e, _ in known_hit if id(e) in real_ids])   # known findings among the bounded stand-ins are not in real_obl
     coverage = {
         "obligations": n_claim,
         "discharged": len(proved),
